@@ -27,7 +27,7 @@ GATTR = st.dictionaries(st.sampled_from(['name2', 'meta', 'tags']), gen.ATTR_VAL
 
 
 def strategy(tier):
-    return st.tuples(gen.history(max_ops=12, rejects=False, kinds=KINDS), GATTR).map(lambda x: dict(x[0], gattr=x[1]))
+    return st.tuples(gen.tiered(tier, max_ops=12, rejects=False, kinds=KINDS), GATTR).map(lambda x: dict(x[0], gattr=x[1]))
 
 
 def mutate_nested(x):
@@ -128,6 +128,12 @@ def run_case(case, rec):
             battery = getattr(common, 'check_queries', None)
             if battery is not None:
                 battery(rec, 'C16.wellformed.q', H, HM, list(H.nodes()), ctx=name, probes=HM._probes, light=True)
+        # ---- the converted graph stays a usable graph
+        ok, Hc = safe(thunk)
+        if ok:
+            okm, HMc = safe(common.scan_model, Hc, M.mentioned_instants())
+            if okm:
+                common.check_continuation(rec, 'C16.wellformed.continue', Hc, HMc, case, list(dict.fromkeys(nodes)), ctx=name, k=len(case['ops']))
         # ---- isolation
         ok, mid = safe(observe, G, nodes, probes)
         rec.check('C16.source_unchanged', ok and mid == before, lambda: '%s changed the source in %r' % (name, diff(before, mid) if ok else mid))
